@@ -13,7 +13,7 @@ Bytes and latin-1 text are `List Nat`.  The connection coroutine is a machine
 gzip decompressor yields for the whole (still compressed) body `raw`.
 
 The model is of the tree *after* the `fix:` commits listed in known_findings/C08.json (close-delimited bodies
-are checked against `max_body_size`; a 1xx interim response hands over to the nested read and returns; a truncated
+are checked against `max_body_size`; Content-Length lists are split on comma + SP/HTAB; a 1xx interim response hands over to the nested read and returns; a truncated
 gzip body fails the fetch; `_GzipMessageDelegate.headers_received` starts every message without a decompressor).
 -/
 import TornadoModel.C06.Model
@@ -125,14 +125,14 @@ def gzipRewrite (h : Headers) : Headers × Bool :=
         | .ok h3 => (h3, true)
     else (h1, false)
 
-/-- Python `\s` on latin-1 text -/
-def isReSpace (c : Nat) : Bool := (9 ≤ c && c ≤ 13) || (28 ≤ c && c ≤ 32) || c = 133 || c = 160
+/-- `[ \t]`: the optional whitespace after a list comma (since the `fix:` commit; was Python's `\s`) -/
+def isListWs (c : Nat) : Bool := c = 32 || c = 9
 
-/-- `re.split(r",\s*", s)` (`skip` = we are just behind a comma) -/
+/-- `re.split(r",[ \t]*", s)` (`skip` = we are just behind a comma) -/
 def splitCommaWs (skip : Bool) : Str → List Str
   | [] => [[]]
   | c :: cs =>
-    if skip && isReSpace c then splitCommaWs true cs
+    if skip && isListWs c then splitCommaWs true cs
     else if c = 44 then [] :: splitCommaWs true cs
     else match splitCommaWs false cs with
       | [] => [[c]]
